@@ -96,7 +96,8 @@ Shapes == /\ \E x \in SessionCfgs : Overnight(x)
 Seed == atoi(IOEnv.X01_SEED)
 CfgNo == SumSet(c.hol) + 7 * Cardinality(c.wk) + sc.ds + 3 * sc.de + d
 Spell(x) == [x |-> x, hms |-> HMS(x), ints |-> SetToSortSeq(IntSpellings(x), <)]
-Case(s) == [s |-> s, w |-> Where(sc, s), f |-> TdF(c, sc, T(s)), p |-> TdP(c, sc, T(s)), tr |-> B(IsTrading(c, sc, T(s)))]
+Case(s) == [s |-> s, w |-> Where(sc, s), f |-> TdF(c, sc, T(s)), p |-> TdP(c, sc, T(s)), tr |-> B(IsTrading(c, sc, T(s))),
+            xf |-> B(TodayOff(sc, s, "f")), xp |-> B(TodayOff(sc, s, "p"))]
 Emit == [cfg |-> [hol |-> SetToSortSeq(c.hol, <), wk |-> SetToSortSeq(c.wk, <), adj |-> c.adj, lo |-> c.lo, hi |-> c.hi],
          ds |-> Spell(sc.ds), de |-> Spell(sc.de), d |-> d, on |-> B(Overnight(sc)),
          cases |-> SetToSeq({Case(s) : s \in {x \in Secs : Dom(x)}})]
